@@ -66,13 +66,15 @@ def conv_case(H, W, C, Fn, k, s, p, d, bias, seed):
     if not ok:
         return {"what": "C05/conv/receptive_broadcast", "input": inp, "expected": [2, Fn, C, k[0], k[1], oh * ow], "actual": [list(pre.shape), list(post.shape)]}
     # the receptive view of an input is the value the kernel tap (c, kh, kw) sees at output position l
-    l = oh * ow - 1
-    oy, ox = divmod(l, ow)
-    for (c_, a, b_) in ((0, 0, 0), (C - 1, k[0] - 1, k[1] - 1)):
-        iy, ix = oy * s[0] - p[0] + a * d[0], ox * s[1] - p[1] + b_ * d[1]
-        v = y[0, c_, iy, ix].item() if 0 <= iy < H and 0 <= ix < W else 0.0
-        if abs(pre[0, 0, c_, a, b_, l].item() - v) > 1e-6:
-            return {"what": "C05/conv/presyn_receptive_value", "input": inp, "expected": v, "actual": pre[0, 0, c_, a, b_, l].item()}
+    for l in sorted({0, oh * ow - 1, (oh * ow) // 2}):
+        oy, ox = divmod(l, ow)
+        for c_ in range(C):
+            for a in range(k[0]):
+                for b_ in range(k[1]):  # EVERY kernel tap: a swapped (kh, kw) decomposition only shows on interior taps
+                    iy, ix = oy * s[0] - p[0] + a * d[0], ox * s[1] - p[1] + b_ * d[1]
+                    v = y[0, c_, iy, ix].item() if 0 <= iy < H and 0 <= ix < W else 0.0
+                    if abs(pre[0, 0, c_, a, b_, l].item() - v) > 1e-6:
+                        return {"what": "C05/conv/presyn_receptive_value", "input": dict(inp, tap=[c_, a, b_], position=l), "expected": v, "actual": pre[0, 0, c_, a, b_, l].item()}
     return None
 
 
@@ -174,6 +176,10 @@ def sweep(tier="quick", seed=0, unsupported=()):
 
 
 def replay(contract, label, model, note=""):
+    if contract.startswith("Conv2D.layouts"):
+        from . import connections as _cx
+
+        return _cx.replay_layouts(model)
     r = sweep("quick", 0)
     want = contract.split(".")[0].replace("Linear", "").lower()
     fs = [f for f in r["failures"] if want in f["what"]] or r["failures"]
